@@ -1,90 +1,159 @@
 ------------------------------- MODULE OttoAPI ------------------------------
 (* The public API of the interpreter as a state machine over whole runtimes.  *)
 (*                                                                           *)
-(*   rts    : runtime id -> abstract runtime (the ES5Core state: heap,       *)
-(*            environments, ...).  A runtime is a VALUE.                     *)
-(*   hist   : the actions so far (hidden by VIEW)                            *)
+(*   rts    : runtime id -> abstract runtime (the whole ES5Core state: heap,  *)
+(*            environments, ...).  A runtime is a VALUE.                      *)
+(*   hist   : the actions so far            (hidden by VIEW)                  *)
+(*   last   : the reply to the last action  (hidden by VIEW)                  *)
 (*                                                                           *)
-(* Actions (one per public entry point, otto.go / script.go):                *)
-(*   New(r)                 a fresh runtime                                  *)
-(*   Run(r, p, route)       Programs[p] submitted by a route: source text,   *)
-(*                          compiled Script, parsed Program, a Script        *)
-(*                          compiled on another runtime (all the same        *)
-(*                          transition), or Eval (eval code: 10.4.2)         *)
-(*   RunHostPanic(r, p, k)  the same with a host function that panics at its *)
-(*                          k-th call: an abnormal exit                      *)
-(*   Copy(r, n)             rts' = rts with n |-> rts[r]                     *)
-(* Every transition is printed with the observation the specification        *)
-(* requires (host-call log, completion value / exception class) and replayed *)
-(* on the implementation (harness/internal/api).                             *)
+(* Actions (one per public entry point, otto.go / script.go), as records:     *)
+(*   [op "new",  n]               otto.New(): a fresh runtime n               *)
+(*   [op "copy", r, n]            n := r.Copy():  rts' = rts @@ (n :> rts[r]) *)
+(*   [op "run",  r, p, route, k=0]  Progs[p] submitted by a route: source     *)
+(*                                text, compiled Script, parsed Program, a    *)
+(*                                Script compiled on another runtime (all the *)
+(*                                same transition), or Eval (eval code 10.4.2)*)
+(*   [op "hostpanic", r, p, route, k]  the same (routes source and eval), and  *)
+(*                                the host function H                         *)
+(*                                panics with the Go string "boom" at its     *)
+(*                                k-th call of this run (abnormal exit unless *)
+(*                                the script catches it)                      *)
+(*   [op "set", r, nm, val]       vm.Set(nm, primitive)                       *)
+(*   [op "get", r, nm]            vm.Get(nm)                                  *)
+(*   [op "call", r, nm, args]     vm.Call(nm, nil, args...)                   *)
+(* Every action is ONE application of S!RunOn (or none): the Go-side calls    *)
+(* set/get/call are the runs of the one-statement programs `nm = val`,        *)
+(* `this.nm`, `nm(args)` (see SetProg/GetProg/CallProg for why these are the  *)
+(* same transitions).  There is exactly one textual path from Next into the   *)
+(* evaluator (TLC's start-up cost grows with every such path).                *)
 (*                                                                           *)
-(* Checked by TLC on the model:                                              *)
-(*   CopyIsValue     after Copy the two runtimes are equal, and (frame) a    *)
-(*                   step of one runtime leaves every other unchanged        *)
-(*   RouteIndependent  the non-eval routes are the same transition           *)
-(*   TotalReplies    every reply is a value, an error class or the armed     *)
-(*                   host panic - never anything else                        *)
+(* Every transition is printed with the observation the specification         *)
+(* requires (host-call log, completion value / exception class) and replayed  *)
+(* on the implementation (harness/internal/api).                              *)
+(*                                                                           *)
+(* Checked by TLC on the model:                                               *)
+(*   CopyIsValue     after Copy the two runtimes are equal, and (frame) a     *)
+(*                   step on one runtime leaves every other unchanged         *)
+(*   TotalReplies    every reply is undecided, a value, an error class or a   *)
+(*                   thrown primitive (which includes the armed host panic) - *)
+(*                   never anything else (no interrupt marker, no malformed   *)
+(*                   record); as an invariant over `last` and, because `last` *)
+(*                   is hidden by the VIEW, also as an action property        *)
+(*                   (TotalRepliesStep) that TLC evaluates on every edge      *)
 EXTENDS Integers, Sequences, TLC, Json, FiniteSets, OttoAPIProgs
-CONSTANTS MaxRT, MaxLen, Fuel, WithPanic
-VARIABLES rts, hist
+CONSTANTS MaxRT,        \* runtimes
+          MaxLen,       \* length of a history
+          Fuel,         \* evaluation fuel of one run
+          RouteFrom,    \* the non-source routes are taken by steps number > RouteFrom only
+          MaxK,         \* host panic at call 1..MaxK (0: no host panics)
+          PanicFrom,    \* host panics are armed by steps number > PanicFrom only
+          GoFrom,       \* set/get/call are taken by steps number > GoFrom only (MaxLen: never)
+          ProgSet       \* indexes of the programs of the pool in use ({}: all)
+VARIABLES rts, hist, last
 
 S == INSTANCE ES5Core WITH Dev <- {}
 
 RT == 1..MaxRT
-NP == Len(Progs)
+PS == IF ProgSet = {} THEN 1..Len(Progs) ELSE ProgSet
 Routes == {"source", "script", "program", "foreign-script", "eval"}
 
-Init == rts = (1 :> S!State0(Fuel)) /\ hist = <<>>
+Fresh == S!State0(Fuel)
+NoOut == [und |-> FALSE, log |-> <<>>, thr |-> <<>>, v |-> [t |-> "undef"]]
 
-Reply(a, out) == [act |-> a, out |-> out]
+-----------------------------------------------------------------------------
+(* The Go-side entry points as programs.                                      *)
+(* vm.Set(nm, v): globalStash.setValue = [[Put]](nm, v, false) on the global  *)
+(*   object when the property exists, else a new {writable, enumerable,       *)
+(*   configurable} data property: the assignment `nm = v` in global code      *)
+(*   (11.13.1 / 8.7.2 / 10.2.1.2.3).                                          *)
+(* vm.Get(nm): hasProperty ? [[Get]] : undefined  =  `this.nm` in global code *)
+(*   (never a ReferenceError).                                                *)
+(* vm.Call(nm, nil, args...): otto evaluates the call expression `nm(args)`.  *)
+Lit(v) == CASE v.t = "num" -> [k |-> "num", v |-> v.n]
+            [] v.t = "str" -> [k |-> "str", s |-> v.s]
+            [] v.t = "bool" -> [k |-> "bool", b |-> v.b]
+            [] v.t = "null" -> [k |-> "null"]
+            [] OTHER -> [k |-> "un", op |-> "void", e |-> [k |-> "num", v |-> [c |-> "int", v |-> 0]]]
+IdN(nm) == [k |-> "id", n |-> nm]
+SetProg(nm, v) == <<[k |-> "expr", e |-> [k |-> "asg", op |-> "=", l |-> IdN(nm), r |-> Lit(v)]]>>
+GetProg(nm) == <<[k |-> "expr", e |-> [k |-> "dot", o |-> [k |-> "this"], n |-> nm]]>>
+CallProg(nm, args) == <<[k |-> "expr", e |-> [k |-> "call", f |-> IdN(nm), args |-> [i \in 1..Len(args) |-> Lit(args[i])]]]>>
 
-DoRun(r, p, route, k) ==
-    LET res == S!RunOn(rts[r], Progs[p], Fuel, route = "eval", k)
-        a == [op |-> IF k = 0 THEN "run" ELSE "hostpanic", r |-> r, p |-> p, route |-> route, k |-> k]
-    IN  /\ rts' = [rts EXCEPT ![r] = res.st]
+ProgOf(a) == CASE a.op \in {"run", "hostpanic"} -> Progs[a.p]
+               [] a.op = "set" -> SetProg(a.nm, a.val)
+               [] a.op = "get" -> GetProg(a.nm)
+               [] a.op = "call" -> CallProg(a.nm, a.args)
+
+(* the one place where the evaluator is applied *)
+Effect(a) ==
+    CASE a.op = "new" -> [st |-> Fresh, out |-> NoOut]
+      [] a.op = "copy" -> [st |-> rts[a.r], out |-> NoOut]
+      [] OTHER -> S!RunOn(rts[a.r], ProgOf(a), Fuel, a.op \in {"run", "hostpanic"} /\ a.route = "eval", IF a.op = "hostpanic" THEN a.k ELSE 0)
+
+Target(a) == IF a.op \in {"new", "copy"} THEN a.n ELSE a.r
+
+Step(a) ==
+    LET res == Effect(a)
+        t == Target(a)
+        \* vm.Set reports only an error, not a completion value
+        out == IF a.op = "set" /\ ~res.out.und /\ res.out.thr = <<>> THEN [res.out EXCEPT !.v = [t |-> "undef"]] ELSE res.out
+    IN  /\ rts' = IF t \in DOMAIN rts THEN [rts EXCEPT ![t] = res.st] ELSE rts @@ (t :> res.st)
         /\ hist' = Append(hist, a)
-        /\ PrintT("VJSON " \o ToJson([path |-> hist, step |-> a, exp |-> res.out]))
+        /\ last' = out
+        /\ PrintT("VJSON " \o ToJson([path |-> hist, step |-> a, exp |-> out]))
 
-Run(r, p, route) == r \in DOMAIN rts /\ DoRun(r, p, route, 0)
-RunHostPanic(r, p, k) == WithPanic /\ r \in DOMAIN rts /\ DoRun(r, p, "source", k)
+-----------------------------------------------------------------------------
+(* the global names and primitive values the Go side writes, reads and calls  *)
+(* (names the programs of the pool use: n = <<110>>, o, f, bump, g)           *)
+GoNames == <<(<<110>>), (<<111>>), (<<98, 117, 109, 112>>), (<<103>>)>>
+GoVals == <<[t |-> "num", n |-> [c |-> "int", v |-> 5]], [t |-> "str", s |-> <<115>>], [t |-> "undef"]>>
+GoCalls == <<[nm |-> <<98, 117, 109, 112>>, args |-> <<[t |-> "num", n |-> [c |-> "int", v |-> 2]]>>],
+             [nm |-> <<102>>, args |-> <<>>],
+             [nm |-> <<110>>, args |-> <<>>]>>
 
-New(r) == /\ r \notin DOMAIN rts
-          /\ rts' = rts @@ (r :> S!State0(Fuel))
-          /\ hist' = Append(hist, [op |-> "new", r |-> r])
-          /\ PrintT("VJSON " \o ToJson([path |-> hist, step |-> [op |-> "new", r |-> r], exp |-> [und |-> FALSE, log |-> <<>>, thr |-> <<>>, v |-> [t |-> "undef"]]]))
+Acts ==
+    LET d == Len(hist)
+        R == DOMAIN rts
+        nx == Cardinality(R) + 1
+    IN  {[op |-> "run", r |-> r, p |-> p, route |-> "source", k |-> 0] : r \in R, p \in PS}
+        \cup (IF d >= RouteFrom
+              THEN {[op |-> "run", r |-> r, p |-> p, route |-> rt, k |-> 0] : r \in R, p \in PS, rt \in Routes \ {"source"}}
+              ELSE {})
+        \cup (IF d >= PanicFrom
+              THEN {[op |-> "hostpanic", r |-> r, p |-> p, route |-> rt, k |-> k] :
+                        r \in R, p \in PS, k \in 1..MaxK, rt \in (IF d >= RouteFrom THEN {"source", "eval"} ELSE {"source"})}
+              ELSE {})
+        \cup (IF nx <= MaxRT
+              THEN {[op |-> "copy", r |-> r, n |-> nx] : r \in R} \cup {[op |-> "new", n |-> nx]}
+              ELSE {})
+        \cup (IF d >= GoFrom
+              THEN {[op |-> "set", r |-> r, nm |-> GoNames[i], val |-> GoVals[j]] : r \in R, i \in 1..Len(GoNames), j \in 1..Len(GoVals)}
+                   \cup {[op |-> "get", r |-> r, nm |-> GoNames[i]] : r \in R, i \in 1..Len(GoNames)}
+                   \cup {[op |-> "call", r |-> r, nm |-> GoCalls[i].nm, args |-> GoCalls[i].args] : r \in R, i \in 1..Len(GoCalls)}
+              ELSE {})
 
-Copy(r, n) == /\ r \in DOMAIN rts /\ n \notin DOMAIN rts
-              /\ rts' = rts @@ (n :> rts[r])
-              /\ hist' = Append(hist, [op |-> "copy", r |-> r, n |-> n])
-              /\ PrintT("VJSON " \o ToJson([path |-> hist, step |-> [op |-> "copy", r |-> r, n |-> n], exp |-> [und |-> FALSE, log |-> <<>>, thr |-> <<>>, v |-> [t |-> "undef"]]]))
+Init == rts = (1 :> Fresh) /\ hist = <<>> /\ last = NoOut
 
 Next == /\ Len(hist) < MaxLen
-        /\ \/ \E r \in RT, p \in 1..NP : Run(r, p, "source")
-           \/ \E r \in RT, p \in 1..NP, route \in Routes \ {"source"} : Len(hist) = MaxLen - 1 /\ Run(r, p, route)   \* routes: as last step
-           \/ \E r \in RT, p \in 1..NP, k \in 1..3 : RunHostPanic(r, p, k)
-           \/ \E r \in RT, n \in RT : n = Cardinality(DOMAIN rts) + 1 /\ Copy(r, n)
-           \/ \E n \in RT : n = Cardinality(DOMAIN rts) + 1 /\ New(n)
+        /\ \E a \in Acts : Step(a)
 
-vars == <<rts, hist>>
+vars == <<rts, hist, last>>
 View == rts
 
 -----------------------------------------------------------------------------
-Last == hist'[Len(hist')]
+LastAct == hist'[Len(hist')]
 
 (* a copy is a value; a step of one runtime is invisible to all others *)
 CopyIsValue ==
-    [][/\ (Last.op = "copy" => rts'[Last.n] = rts[Last.r])
-       /\ \A x \in DOMAIN rts : (Last.op \in {"new", "copy"} \/ x # Last.r) => rts'[x] = rts[x]]_vars
+    [][/\ (LastAct.op = "copy" => rts'[LastAct.n] = rts[LastAct.r])
+       /\ \A x \in DOMAIN rts : (LastAct.op \in {"new", "copy"} \/ x # LastAct.r) => rts'[x] = rts[x]
+       /\ DOMAIN rts \subseteq DOMAIN rts']_vars
 
-(* the routes other than Eval are the same transition *)
-RouteIndependent ==
-    \A r \in DOMAIN rts, p \in 1..NP :
-        LET a == S!RunOn(rts[r], Progs[p], Fuel, FALSE, 0) IN
-        \A route \in {"script", "program", "foreign-script"} : S!RunOn(rts[r], Progs[p], Fuel, route = "eval", 0) = a
-
-(* no reply outside the vocabulary: value, error class, thrown value ("v") *)
-TotalReplies ==
-    \A r \in DOMAIN rts, p \in 1..NP :
-        LET o == S!RunOn(rts[r], Progs[p], Fuel, FALSE, 0).out IN
-        o.und \/ o.thr \in {<<>>, <<118>>} \cup {S!NativeErrs[i] : i \in 1..Len(S!NativeErrs)} \cup {S!ErrorNames[1]}
+(* no reply outside the vocabulary: undecided, value, error class, thrown primitive ("v") *)
+ErrClasses == {S!ErrorNames[i] : i \in 1..Len(S!ErrorNames)}
+ReplyOK(o) ==
+    /\ DOMAIN o \in {{"und"}, {"und", "log", "thr", "v"}}
+    /\ (o.und \/ o.thr \in {<<>>, <<118>>} \cup ErrClasses)
+TotalReplies == ReplyOK(last)
+TotalRepliesStep == [][ReplyOK(last')]_vars
 =============================================================================
